@@ -114,3 +114,39 @@ def correspond_existing(name, outdir, mode):
 def replay_vm(ctx, path):
     r = json.load(open(path))
     return replay_generic(ctx, path, DRV, MODE, featureset=("extras" if r.get("features") == "extras" else "default"))
+
+
+GEN_TAG_ID = "C02-tags-on-optional-or-repetition"
+
+
+def generated_leg(ctx, want):
+    """The generated parser (emitted code executed call by call on the real ParserState, drv_gen) against Vm::parse on the
+    shared grammar stream. `want(gen_result, vm_result)` selects the disagreements that concern the calling property.
+    Returns (violations_reported, stats). Only the oracle column is used here (gen vs VM on the implementation); the
+    tree-equality correspondence of the same driver belongs to C02."""
+    import re
+    reported, stats = 0, {}
+    for fs in ("default", "extras"):
+        ok, out, bindir, _ = cargo_build(fs, ["drv_gen"])
+        if not ok:
+            ctx.violation({"obligation": f"harness does not build against /repo (features {fs})", "log": out[-3000:]}, no_input=True)
+            continue
+        outdir = os.path.join(ctx.rundir, "genleg-" + fs)
+        c = correspond("genleg-" + fs, os.path.join(bindir, "drv_gen"), ["gen", ctx.tier, str(ctx.seed)], MODE, outdir)
+        if c.error:
+            ctx.violation({"correspondence": c.name, "error": c.error}, no_input=True)
+            continue
+        sel = []
+        for (i, op, imp, verdict) in c.oracle_fail:
+            if "(tag (opt" in op or "(tag (rep" in op:
+                continue                       # the recorded finding about tags on optional / repeated expressions (C02)
+            m = re.search(r"generated parser `(.*?)` but VM `(.*?)`", verdict)
+            if m and want(m.group(1), m.group(2)):
+                sel.append((op, verdict))
+        stats[fs] = {"lines": c.n, "gen_vs_vm_disagreements_selected": len(sel)}
+        if sel:
+            op, verdict = min(sel, key=lambda t: (len(t[0]), t[0]))
+            ctx.violation({"kind": "the parser emitted by pest_generator (its code executed call by call on the real ParserState) and Vm::parse disagree; the VM's result is the one the model proves correct",
+                           "leg": "generated", "features": fs, "case": op[:6000], "oracle": verdict, "failing_lines_in_run": len(sel)})
+            reported += 1
+    return reported, stats
